@@ -507,7 +507,7 @@ PROPS["C11"] = {
              "existing name), hard-link a file in, create an empty file, rename away to outside, rename to another Spec name or to a "
              "non-Spec name inside the directory, remove, mkdir of a missing directory, remove a directory with its content (recreated by a "
              "later mkdir), rename a whole directory away from its configured path, rename a complete prepared directory into a missing "
-             "configured path, a plain query; contents are valid Specs (2 kinds x 2 device names, unique marker), unparsable or empty; after every action a "
+             "configured path, rename one configured directory to the path of another, missing one, a plain query; contents are valid Specs (2 kinds x 2 device names, unique marker), unparsable or empty; after every action a "
              "pacing draw: nothing / yield / 1 ms / 20 ms / one query. Oracle (differential, as the statement defines it): after the last "
              "action the view through queries (devices with path, priority and definition; files in error) is polled until it equals the "
              "view of a cache freshly built from the final directory contents; only 'still different 10 s after the last change' is a "
@@ -536,7 +536,7 @@ PROPS["C11"] = {
     },
     "parallel": 16,
     "health": {"quick": {"op:moveIn": 500, "op:linkIn": 500, "op:createEmpty": 300, "op:removeDir": 500, "op:mkdirMissing": 300, "op:rewriteInChunks": 500,
-                         "op:renameInside": 500, "op:renameAway": 500, "op:renameDirAway": 300, "op:renameDirIn": 100, "nested-directories": 100, "target:already-scanned": 20, "target:not-yet-scanned": 20, "last:moveIn": 20, "last:linkIn": 20, "last:remove": 20}},
+                         "op:renameInside": 500, "op:renameAway": 500, "op:renameDirAway": 300, "op:renameDirIn": 100, "op:renameDirOnto": 100, "nested-directories": 100, "target:already-scanned": 20, "target:not-yet-scanned": 20, "last:moveIn": 20, "last:linkIn": 20, "last:remove": 20}},
     "units": [
         {"name": "regress", "mode": "plain", "run": "TestC11Regress", "race": True},
         {"name": "configure-race", "mode": "plain", "run": "TestC11ConfigureRace", "race": True, "shards": {"quick": 2, "thorough": 8},
